@@ -1,6 +1,112 @@
-(* placeholder while the pipeline is brought up *)
-From PV Require Import Spec.C12Spec Model.C12Expr.
-Theorem C12_placeholder : True.
-Proof. exact I. Qed.
-Print Assumptions C12_placeholder.
-Example C12_ex : True. Proof. exact I. Qed.
+(* Props/C12.v — property C12: DWARF expressions are split into exactly their
+   operations and operands; operation names are one-to-one with opcodes.
+   Only statements, closed by [exact]; proofs live in Proofs/C12Proofs.v.
+   Model: Model/C12Expr.v (transliteration of dwarf/dwarf_expr.py parse_expr and the
+   operand closures, common/utils.py read_blob) over Gen/C12Tables.v (the live
+   DW_OP_name2opcode / DW_OP_opcode2name dicts and the live dispatch table).
+   Spec: Spec/C12Spec.v (operand table of DWARF 2-5 + GNU/WASM, encoder, expected parse). *)
+From PV Require Import Base.Outcome Spec.PrimSpec Spec.C12Spec Model.C12Expr Proofs.C12Proofs.
+Open Scope string_scope.
+Open Scope Z_scope.
+
+(* MAIN: for every configuration DWARFStructs accepts, every list of well-formed
+   operations (any length, any nesting depth, any valid LEB128 encodings, blobs of
+   any length) parses to exactly opcode, name, operand values and byte offset of
+   each operation, recursively for nested entry-value expressions. *)
+Theorem C12_expr_roundtrip : forall c ops,
+  cfg_ok c = true -> wf_ops c ops = true ->
+  parse_expr c (encode_ops c ops) = Ok (annotate c ops).
+Proof. exact expr_roundtrip. Qed.
+Print Assumptions C12_expr_roundtrip.
+
+(* the model's fuel (1 + len(expr)) is never the reason for the answer: any larger
+   fuel gives the same result, EFuel is unreachable on the domain *)
+Theorem C12_expr_roundtrip_any_fuel : forall c ops fuel,
+  cfg_ok c = true -> wf_ops c ops = true -> (length (encode_ops c ops) < fuel)%nat ->
+  parse_expr_fuel fuel c (encode_ops c ops) 0 = Ok (annotate c ops).
+Proof. exact expr_roundtrip_fuel. Qed.
+Print Assumptions C12_expr_roundtrip_any_fuel.
+
+(* re-encoding the parsed result reproduces the input bytes (LEB128 re-encoded
+   minimally, hence stated for inputs whose LEB128 operands are minimal) *)
+Theorem C12_reencode : forall c ops r,
+  cfg_ok c = true -> wf_ops c ops = true -> canon_ops c ops = true ->
+  parse_expr c (encode_ops c ops) = Ok r -> reencode c r = encode_ops c ops.
+Proof. exact reencode_parse. Qed.
+Print Assumptions C12_reencode.
+
+Theorem C12_reencode_annotate : forall c ops,
+  wf_ops c ops = true -> canon_ops c ops = true ->
+  reencode c (annotate c ops) = encode_ops c ops.
+Proof. exact reencode_annotate. Qed.
+Print Assumptions C12_reencode_annotate.
+
+(* minimal LEB128 encodings exist for every value, so canonical inputs exist for
+   every operand value *)
+Theorem C12_uleb_canonical : forall v, 0 <= v -> uleb_ok (uleb_encode v) v = true.
+Proof. exact uleb_canonical_ok. Qed.
+Print Assumptions C12_uleb_canonical.
+Theorem C12_sleb_canonical : forall v, sleb_ok (sleb_encode v) v = true.
+Proof. exact sleb_canonical_ok. Qed.
+Print Assumptions C12_sleb_canonical.
+
+(* FINITE (<= 256 rows, vm_compute): the dispatch table of the live module, as
+   identified by tools/gen/gen_c12.py, with the live names attached, IS the operand
+   table of the standard.  Any edit of a width, signedness, operand order, opcode
+   value or name in dwarf_expr.py changes Gen/C12Tables.v and breaks this proof
+   (and with it C12_expr_roundtrip, which uses it). *)
+Theorem C12_dispatch_matches_standard :
+  map (fun '(o, ks) => (o, (opcode2name o, ks))) gen_dispatch = spec_optable.
+Proof. exact dispatch_matches_standard. Qed.
+Print Assumptions C12_dispatch_matches_standard.
+
+(* FINITE (the two live dicts): on operation names (DW_OP_lo_user / DW_OP_hi_user
+   are range markers, not operations) name -> opcode and opcode -> name are
+   mutually inverse: names are in one-to-one correspondence with opcodes *)
+Theorem C12_names_bijective : forall n o, is_marker n = false ->
+  (slookup gen_DW_OP_name2opcode n = Some o <-> zlookup gen_DW_OP_opcode2name o = Some n).
+Proof. exact names_bijective. Qed.
+Print Assumptions C12_names_bijective.
+
+(* FINITE: and they are exactly the names of the standard, with its opcodes *)
+Theorem C12_names_match_standard : forall n o, is_marker n = false ->
+  (slookup gen_DW_OP_name2opcode n = Some o <-> exists ks, spec_row o = Some (n, ks)).
+Proof. exact names_match_standard. Qed.
+Print Assumptions C12_names_match_standard.
+
+(* outside the table (outside the property): the implementation's behaviour is a KeyError *)
+Theorem C12_unknown_opcode : forall c opc rest,
+  spec_row opc = None -> parse_expr c (opc :: rest) = Err (EPy "KeyError").
+Proof. exact unknown_opcode_keyerror. Qed.
+Print Assumptions C12_unknown_opcode.
+
+(* ---------- non-vacuity: the hypotheses hold for concrete non-trivial inputs ---------- *)
+Definition ex_cfg : cfg := mkCfg false 8 64.     (* big endian, 8-byte addresses, 64-bit DWARF *)
+(* entry_value( GNU_entry_value( entry_value( breg5 -300 ; const_type <0x85> 3 bytes ) ; WASM_location 3 0xfffffffe ) ;
+   implicit_pointer 2^63 -1 ) ; deref_size 0x80 ; GNU_parameter_ref ; regx 128 (non-minimal) ; implicit_value 2 bytes *)
+Definition ex_inner : list sop :=
+  [ SOp 0x75 [VLeb [0xd4; 0x7d] (-300)];
+    SOp 0xa4 [VTyped [0x85; 0x01] 0x85 [1; 2; 3]] ].
+Definition ex_ops : list sop :=
+  [ SNest 0xa3 [0x16]
+      [ SNest 0xf3 [0x0b] [ SNest 0xa3 [9] ex_inner; SOp 0xed [VWasmU32 0xfffffffe] ];
+        SOp 0xa0 [VInt (2 ^ 63); VLeb [0x7f] (-1)] ];
+    SOp 0x94 [VInt 0x80];
+    SOp 0xfa [VInt 0xdeadbeef];
+    SOp 0x90 [VLeb [0x80; 0x81; 0x00] 128];
+    SOp 0x9e [VBlock [0x82; 0x00] [0xaa; 0xbb]] ].
+Example C12_ex_wf : cfg_ok ex_cfg = true /\ wf_ops ex_cfg ex_ops = true /\
+                    (46 <=? length (encode_ops ex_cfg ex_ops))%nat = true.
+Proof. vm_compute. repeat split; reflexivity. Qed.
+Example C12_ex_parse :
+  parse_expr ex_cfg (encode_ops ex_cfg ex_ops) = Ok (annotate ex_cfg ex_ops) /\
+  nth 1 (annotate ex_cfg ex_ops) (AInt 0) = POp 0x94 "DW_OP_deref_size" [AInt 128] 24.
+Proof. vm_compute. split; reflexivity. Qed.
+(* a canonical (minimal LEB128) input for the re-encoding corollary *)
+Definition ex_canon : list sop :=
+  [ SNest 0xf3 [0x07] [ SOp 0x75 [VLeb [0xd4; 0x7d] (-300)]; SOp 0xa7 [VInt 4; VLeb [0x20] 0x20];
+                        SOp 0xed [VWasmLeb 1 [0x07] 7] ];
+    SOp 0xa2 [VLeb [0x80; 0x01] 128] ].
+Example C12_ex_canon : wf_ops ex_cfg ex_canon = true /\ canon_ops ex_cfg ex_canon = true /\
+                       reencode ex_cfg (annotate ex_cfg ex_canon) = encode_ops ex_cfg ex_canon.
+Proof. vm_compute. repeat split; reflexivity. Qed.
